@@ -216,6 +216,12 @@ def _init_state(body):
     return body[i:j + 1]
 
 
+# functions computing on floats: see `expr` (BinOp)
+FLOAT_ARITH = {('TransportLayerLogic.Params', 'validate'), ('TransportLayerLogic.Params', '_fits_float'),
+               ('Timer', 'set_timeout'), ('Timer', 'elapsed'), ('Timer', 'remaining')}
+FLOAT_MODE = [False]
+
+
 REGIONS = [
     ('isotp/protocol.py', 'TransportLayerLogic', '__init__', 'state_init', _init_state),
     ('isotp/protocol.py', 'TransportLayerLogic', '_process_tx', 'prefix', _ptx_prefix),
@@ -309,6 +315,10 @@ def expr(n):
             # `"..." % values`: an opaque call (resolved by the `Meths` of the theorem: it yields some string); the operands are still evaluated
             right = list(n.right.elts) if isinstance(n.right, ast.Tuple) else [n.right]
             return '(.call "__format__" %s)' % args(right)
+        if FLOAT_MODE[0] and isinstance(n.op, (ast.Mult, ast.Div)):
+            # in a function whose operands may be floats, `a * b` / `a / b` are dumped as the calls they are in Python (`__mul__`, `__truediv__`):
+            # the interpreter's own arithmetic is integer arithmetic, the float results are facts supplied through the `Meths` of the theorem
+            return '(.call %s %s)' % (lstr('__mul__' if isinstance(n.op, ast.Mult) else '__truediv__'), args([n.left, n.right]))
         return '(.binop .%s %s %s)' % (BINOPS[type(n.op)], expr(n.left), expr(n.right))
     if isinstance(n, ast.UnaryOp):
         if isinstance(n.op, ast.Not):
@@ -553,7 +563,9 @@ def translate(repo):
             report[name] = 'missing'
             continue
         params = [a.arg for a in fd.args.args]
+        FLOAT_MODE[0] = (cls, fn) in FLOAT_ARITH
         body = block(fd.body)
+        FLOAT_MODE[0] = False
         out.append('/-- %s.%s (%s) -/' % (cls, fn, f))
         out.append('def %s : PBlock :=\n    %s' % (name, body))
         out.append('def %s_params : List String := [%s]' % (name, ', '.join(lstr(p) for p in params)))
